@@ -1,5 +1,5 @@
 (* C05 — Cash and shares are conserved; holdings equal endowment plus own fills. *)
-Require Import Pams.Prelude Pams.Match Pams.Market Pams.Sim Pams.SimLift Pams.SimInv Pams.SimProps.
+Require Import Pams.Prelude Pams.Match Pams.Market Pams.Sim Pams.SimLift Pams.SimInv Pams.SimProps Pams.SimHoldCb.
 Open Scope Z_scope.
 
 (* For EVERY configuration (markets, index markets, agents, sessions, any set of built-in and probe events), every tape of
@@ -30,6 +30,17 @@ Theorem C05_one_fill_conserves_cash_and_shares : forall ags mk t ba sa bi si p v
   map a_id ags' = map a_id ags.
 Proof. exact fill_conserves_cash_and_shares. Qed.
 Print Assumptions C05_one_fill_conserves_cash_and_shares.
+
+
+(* WHAT AN AGENT SEES WHEN CALLED BACK: in any run, for every callback, the holdings handed to the agent are its endowment
+   folded, in order, with every fill born before that callback - hence with all fills of the round being notified *)
+Theorem C05_callbacks_carry_holdings_updated_for_all_earlier_fills : forall c tape batches funds,
+  let s := run c tape batches funds in
+  let a0 := s_agents (init_sim c tape batches funds) in
+  forall before a k r hold sw run after, events_of s = before ++ EvCallback a k r hold sw run :: after ->
+    exists ag, find_agent a (fold_left apply_fill_holdings (fills before) a0) = Some ag /\ hold = holdings_ov ag.
+Proof. exact callbacks_carry_updated_holdings. Qed.
+Print Assumptions C05_callbacks_carry_holdings_updated_for_all_earlier_fills.
 
 Example C05_nonvacuous :
   let ags := [mkA 0 false (1000#1) [(0, 50)]; mkA 1 false (1000#1) [(0, 50)]] in
